@@ -27,6 +27,25 @@ def frame(g, name, pscale=3.0):
     return g.module(TMM).tm(M), M
 
 
+def frame_E(g, name, pscale=3.0):
+    """an arbitrary frame given by its six-vector (so that near-equal frames are directly expressible on inputs)"""
+    x = g.reals(name + 'x', 6, scale=pscale)
+    t = g.module(TMM).tm([x[0], x[1], x[2], x[3], x[4], x[5]])
+    return t, t.gTM()
+
+
+def near_equal(g, A, B):
+    """input-class predicate of finding F22: all six entries of the two frames' six-vectors within 1e-8
+    (decided on the inputs, independently of what the code does)"""
+    if not g.symbolic:
+        return False
+    a, b = A.gTAA().reshape(-1), B.gTAA().reshape(-1)
+    for i in range(6):
+        if not (abs(a[i] - b[i]) <= 1e-8):
+            return False
+    return True
+
+
 def _is_early(obj, MB):
     """did changeFrame take its `old == new` shortcut?  (the recorded frame is then not the new one)"""
     M = obj.frame_applied.TM
@@ -61,15 +80,17 @@ class Screw_changeFrame(L2):
         A, MA = frame(g, 'A')
         B, MB = frame(g, 'B')
         d = g.arr(g.reals('d', 6)).reshape((6, 1))
-        s = g.module(SCR).Screw(d.copy(), A)
+        given = d.copy()
+        s = g.module(SCR).Screw(given, A)
         r = s.changeFrame(B)
-        return s, r, d, MA, MB, B
+        return s, r, d, MA, MB, B, given, A
 
     def post(self, g, out, args, kwargs):
-        s, r, d, MA, MB, B = out
+        s, r, d, MA, MB, B, given, A = out
         # `old == new` (all six TAA entries within 1e-8) makes changeFrame return early without recording the frame
-        sfx = cut_suffix(g, shortcut=g.symbolic and s.frame_applied.TM is not None and _is_early(s, MB))
+        sfx = cut_suffix(g, shortcut=near_equal(g, A, B))
         g.holds('changeFrame returns its receiver', r is s)
+        g.eq('the array handed to the constructor is not written by changeFrame', given, d)
         want = S.mm(S.Ad(S.mm(S.inv_SE3(MB), MA)), d)
         g.eq('data = Ad(inv(new) old) data' + sfx, s.data, want)
         g.eq('frame recorded = new frame' + sfx, s.frame_applied.gTM(), MB)
@@ -86,18 +107,63 @@ class Wrench_changeFrame(L2):
         A, MA = frame(g, 'A')
         B, MB = frame(g, 'B')
         d = g.arr(g.reals('d', 6)).reshape((6, 1))
-        w = g.module(WR).Wrench(d.copy(), None, A)
+        given = d.copy()
+        w = g.module(WR).Wrench(given, None, A)
         r = w.changeFrame(B)
-        return w, r, d, MA, MB, B
+        return w, r, d, MA, MB, B, given, A
 
     def post(self, g, out, args, kwargs):
-        w, r, d, MA, MB, B = out
-        sfx = cut_suffix(g, shortcut=g.symbolic and _is_early(w, MB))
+        w, r, d, MA, MB, B, given, A = out
+        sfx = cut_suffix(g, shortcut=near_equal(g, A, B))
         g.holds('changeFrame returns its receiver', r is w)
+        g.eq('the array handed to the constructor is not written by changeFrame', given, d)
         want = S.mm(S.Ad(S.mm(S.inv_SE3(MA), MB)).T, d)
         g.eq('data = Ad(inv(old) new)^T data' + sfx, w.data, want)
         g.eq('frame recorded = new frame' + sfx, w.frame_applied.gTM(), MB)
         g.holds('recorded frame is not the argument object', w.frame_applied is not B)
+
+
+@register
+class Screw_changeFrame_explicit_old(L2):
+    """Screw.changeFrame(new, old) with an explicit old frame (different from the recorded one):
+    data' = Ad(inv(new) old) data"""
+    target = SCR + ':Screw.changeFrame'
+
+    def run(self, g, fn, args, kwargs):
+        A, MA = frame(g, 'A')
+        B, MB = frame(g, 'B')
+        C, MC = frame(g, 'C')
+        d = g.arr(g.reals('d', 6)).reshape((6, 1))
+        s = g.module(SCR).Screw(d.copy(), C)
+        s.changeFrame(B, A)
+        return s, d, MA, MB, A, B
+
+    def post(self, g, out, args, kwargs):
+        s, d, MA, MB, A, B = out
+        sfx = cut_suffix(g, shortcut=near_equal(g, A, B))
+        g.eq('data = Ad(inv(new) old) data for the explicit old frame' + sfx, s.data, S.mm(S.Ad(S.mm(S.inv_SE3(MB), MA)), d))
+        g.eq('frame recorded = new frame' + sfx, s.frame_applied.gTM(), MB)
+
+
+@register
+class Wrench_changeFrame_explicit_old(L2):
+    """Wrench.changeFrame(new, old) with an explicit old frame: data' = Ad(inv(old) new)^T data"""
+    target = WR + ':Wrench.changeFrame'
+
+    def run(self, g, fn, args, kwargs):
+        A, MA = frame(g, 'A')
+        B, MB = frame(g, 'B')
+        C, MC = frame(g, 'C')
+        d = g.arr(g.reals('d', 6)).reshape((6, 1))
+        w = g.module(WR).Wrench(d.copy(), None, C)
+        w.changeFrame(B, A)
+        return w, d, MA, MB, A, B
+
+    def post(self, g, out, args, kwargs):
+        w, d, MA, MB, A, B = out
+        sfx = cut_suffix(g, shortcut=near_equal(g, A, B))
+        g.eq('data = Ad(inv(old) new)^T data for the explicit old frame' + sfx, w.data, S.mm(S.Ad(S.mm(S.inv_SE3(MA), MB)).T, d))
+        g.eq('frame recorded = new frame' + sfx, w.frame_applied.gTM(), MB)
 
 
 @register
@@ -154,14 +220,14 @@ class Wrench_force_at_point(L2):
         f0 = w.getForce().copy()
         w2 = w.copy()
         w2.changeFrame(P)
+        self.zone_in = near_equal(g, w.frame_applied, P)
         return f, p, m0, f0, w2
 
     def post(self, g, out, args, kwargs):
         f, p, m0, f0, w2 = out
         g.eq('moment = p x f', m0.reshape(-1), S.cross3(p, f))
         g.eq('force as given', f0.reshape(-1), g.arr(f))
-        short = g.symbolic and all(w2.data[i, 0] is S.arr(list(m0.reshape(-1)) + list(f0.reshape(-1)))[i] for i in range(6))
-        g.eq('zero moment about the point of application' + cut_suffix(g, short), w2.getMoment().reshape(-1), 0 * g.arr(f))
+        g.eq('zero moment about the point of application' + cut_suffix(g, self.zone_in), w2.getMoment().reshape(-1), 0 * g.arr(f))
         g.eq('force unchanged by a pure translation of the frame', w2.getForce().reshape(-1), g.arr(f))
 
 
@@ -169,10 +235,12 @@ class _SumAcross(L2):
     cls_mod = WR
     cls_name = 'Wrench'
     sign = 1
+    fkind = 'L'
 
     def run(self, g, fn, args, kwargs):
-        A, MA = frame(g, 'A')
-        B, MB = frame(g, 'B')
+        mk = frame if self.fkind == 'L' else frame_E
+        A, MA = mk(g, 'A')
+        B, MB = mk(g, 'B')
         da = g.arr(g.reals('d', 6)).reshape((6, 1))
         db = g.arr(g.reals('e', 6)).reshape((6, 1))
         C = getattr(g.module(self.cls_mod), self.cls_name)
@@ -181,18 +249,16 @@ class _SumAcross(L2):
         else:
             a, b = C(da.copy(), A), C(db.copy(), B)
         r = (a + b) if self.sign > 0 else (a - b)
-        return r, da, db, MA, MB
+        return r, da, db, MA, MB, A, B
 
     def post(self, g, out, args, kwargs):
-        r, da, db, MA, MB = out
+        r, da, db, MA, MB, A, B = out
         if self.cls_name == 'Wrench':
             b_in_a = S.mm(S.Ad(S.mm(S.inv_SE3(MB), MA)).T, db)
         else:
             b_in_a = S.mm(S.Ad(S.mm(S.inv_SE3(MA), MB)), db)
         want = da + b_in_a if self.sign > 0 else da - b_in_a
-        plain = da + db if self.sign > 0 else da - db
-        short = g.symbolic and all(r.data[i, 0] is plain[i, 0] for i in range(6))
-        g.eq('sum/difference taken in the left operand frame' + cut_suffix(g, short), r.data, want)
+        g.eq('sum/difference taken in the left operand frame' + cut_suffix(g, near_equal(g, A, B)), r.data, want)
         g.eq('result frame = left operand frame', r.frame_applied.gTM(), MA)
 
 
@@ -222,6 +288,10 @@ class Screw_sub_across(_SumAcross):
     target = SCR + ':Screw.__sub__'
     cls_mod, cls_name, sign = SCR, 'Screw', -1
 
+
+for _c in (Wrench_add_across, Wrench_sub_across, Screw_add_across, Screw_sub_across):
+    register(type(_c.__name__ + '_sixvec_frames', (_c,), dict(fkind='E', __doc__=(_c.__doc__ or '') +
+                                                              ' (frames given by six-vectors)')))
 
 # ---------------------------------------------------------------------------------------------------
 # vector-space laws, per operand kind
